@@ -7,7 +7,7 @@ package main
 //	        inputs  key.bits.bucket,key.bits.bucket
 //	        zo      key.bucket,key.bucket of the {zero} / {one} values
 //	        consts  key.bitstring(LSB first).bucket,...            ("-" none)
-//	        steps   op:out:in|in;...   arg = c|v . id . key . bits . s|u . cint . bucket
+//	        steps   op:out:in|in;...   arg = c|v . id . key . bits . s|u . cint . bucket . n|<own>_<own bits>
 //	                bucket = Value.HashCode() % 10240 (the allocator's hash table)
 //	                = prog.Steps with the gc instructions removed
 //	result: steps=<the real prog.Steps after Program.GC>;ret=<return wire ids
@@ -18,6 +18,7 @@ import (
 	"sort"
 	"strings"
 
+	"github.com/markkurossi/mpc/compiler/mpa"
 	"github.com/markkurossi/mpc/compiler/ssa"
 	"github.com/markkurossi/mpc/types"
 
@@ -45,7 +46,39 @@ func (si *ssaInfo) argStr(v *ssa.Value) string {
 			ci = int(n)
 		}
 	}
-	return fmt.Sprintf("%s.%d.%d.%d.%s.%d.%d", c, v.ID, si.key(v), v.Type.Bits, sg, ci, bucketOf(v))
+	m := "n"
+	if v.Const {
+		if mi, ok := v.ConstValue.(*mpa.Int); ok {
+			m = ownBits(v, mi.TypeSize())
+		}
+	}
+	return fmt.Sprintf("%s.%d.%d.%d.%s.%d.%d.%s", c, v.ID, si.key(v), v.Type.Bits, sg, ci, bucketOf(v), m)
+}
+
+// ownBits renders an *mpa.Int constant's own size and own bits (what
+// Program.Stream reads with in.Bit(src) when it re-widens the constant).
+func ownBits(v *ssa.Value, own int) (s string) {
+	defer func() {
+		if e := recover(); e != nil {
+			s = "n"
+		}
+	}()
+	n := own
+	if n > int(v.Type.Bits) {
+		n = int(v.Type.Bits)
+	}
+	var sb strings.Builder
+	for b := 0; b < n; b++ {
+		if v.Bit(types.Size(b)) {
+			sb.WriteByte('1')
+		} else {
+			sb.WriteByte('0')
+		}
+	}
+	if sb.Len() == 0 {
+		return fmt.Sprintf("%d_e", own)
+	}
+	return fmt.Sprintf("%d_%s", own, sb.String())
 }
 
 func canonArg(v *ssa.Value) string {
@@ -76,7 +109,7 @@ func constBits(v *ssa.Value) (s string, ok bool) {
 }
 
 func emitGcOp(o *hxlib.Out, sp *ssa.Program, si *ssaInfo, tr *hxlib.StreamTranscript, sessionOK bool) {
-	if si.HasCirc || len(sp.Inputs) != 2 || len(sp.Steps) > 4000 {
+	if si.HasCirc || len(sp.Inputs) != 2 || len(sp.Steps) > 1500 {
 		o.Op("c05 skip", "unsupported")
 		o.Count("gcop_skipped")
 		return
